@@ -94,7 +94,21 @@ func one(scratch string, paths []string, modes []zipref.Mode, goMod string, mv m
 		}
 	}
 	m := module.Version{Path: mv.path, Version: mv.vers}
-	cf, cfErr := modzip.CheckFiles(zf)
+	// the list is a window of a longer array: what lies behind its end belongs to the caller
+	var padFile modzip.File = memfile.Reg("sentinel-pad.go", "package pad\n")
+	zfw := make([]modzip.File, len(zf), len(zf)+2)
+	copy(zfw, zf)
+	zfw[:len(zf)+2][len(zf)], zfw[:len(zf)+2][len(zf)+1] = padFile, padFile
+	intact := func() bool {
+		full := zfw[:len(zf)+2]
+		for i := range zf {
+			if full[i] == nil || full[i].Path() != zf[i].Path() {
+				return false
+			}
+		}
+		return full[len(zf)] != nil && full[len(zf)+1] != nil && full[len(zf)].Path() == "sentinel-pad.go" && full[len(zf)+1].Path() == "sentinel-pad.go"
+	}
+	cf, cfErr := modzip.CheckFiles(zfw)
 	var buf bytes.Buffer
 	var err error
 	func() {
@@ -103,8 +117,11 @@ func one(scratch string, paths []string, modes []zipref.Mode, goMod string, mv m
 				msg = fmt.Sprintf("Create panicked: %v", e)
 			}
 		}()
-		err = modzip.Create(&buf, m, zf)
+		err = modzip.Create(&buf, m, zfw)
 	}()
+	if msg == "" && !intact() {
+		msg = "CheckFiles or Create changed the caller's file list (its elements, or the array behind its end)"
+	}
 	if msg != "" {
 		return msg, false
 	}
